@@ -19,6 +19,7 @@ Summary of what is proved (entry point × outcome):
 import KotoVerif.Model.Unwind
 import KotoVerif.Lemmas.C07
 import KotoVerif.Lemmas.C07Regs
+import KotoVerif.Model.Repl
 
 namespace KotoVerif.C07
 open KotoVerif.Unwind
@@ -1152,5 +1153,74 @@ theorem generator_example :
     genFinished vm1 = false ∧ st2.conts = [] ∧ genFinished st2.vm = true ∧
     genFinished st2'.vm = true ∧ genResume [.newFrame 3, .ret] st2.vm = ⟨st2.vm, []⟩ := by
   decide
+
+
+/-! ## The REPL's own state across failing entries (crates/cli/src/repl.rs) -/
+
+open KotoVerif.Repl in
+/-- **repl_entry_resets**: whenever a line is evaluated and its input compiles, the continuation
+state afterwards is the initial one — whether the run succeeded or failed, and whatever was
+buffered. So a failed entry leaves the REPL exactly where a successful one does: nothing of the
+failed entry is kept, nothing is re-run later. -/
+theorem repl_entry_resets (s : State) (l : Line) (heval : (s.lines.isEmpty || l.blank) = true)
+    (hv : l.verdict = .runOk ∨ l.verdict = .runErr) :
+    (onLine s l).lines = [] ∧ (onLine s l).indent = 0 ∧ (onLine s l).runs = s.runs + 1 := by
+  cases hv with
+  | inl h => simp [onLine, nextLines, runsInput, indentOf, heval, h]
+  | inr h => simp [onLine, nextLines, runsInput, indentOf, heval, h]
+
+open KotoVerif.Repl in
+/-- a failed run and a successful run leave the same REPL state -/
+theorem repl_failed_run_like_successful (s : State) (l : Line)
+    (heval : (s.lines.isEmpty || l.blank) = true) :
+    onLine s { l with verdict := .runErr } = onLine s { l with verdict := .runOk } := by
+  simp [onLine, nextLines, runsInput, heval]
+
+open KotoVerif.Repl in
+/-- a blank line always ends the entry: whatever is buffered and whatever the verdict, the buffer is
+empty afterwards -/
+theorem repl_blank_line_resets (s : State) (l : Line) (hb : l.blank = true) (hne : s.lines ≠ []) :
+    (onLine s l).lines = [] ∧ (onLine s l).indent = 0 := by
+  have hl : s.lines.isEmpty = false := by cases h : s.lines <;> simp_all
+  cases hv : l.verdict <;> simp [onLine, nextLines, indentOf, hb, hv, hl]
+
+open KotoVerif.Repl in
+theorem repl_onLine_congr (a b : State) (x : Line) (h : a.lines = b.lines) :
+    (onLine a x).lines = (onLine b x).lines ∧ (onLine a x).indent = (onLine b x).indent := by
+  simp [onLine, h]
+
+open KotoVerif.Repl in
+/-- **repl_history_independent**: after an entry that was evaluated with a compiling input (run ok
+or failed), every following sequence of lines is processed exactly as in a fresh session (up to
+the run counter): the probe entry `x + 41` is evaluated, not swallowed. -/
+theorem repl_history_independent (s : State) (l : Line) (rest : List Line)
+    (heval : (s.lines.isEmpty || l.blank) = true) (hv : l.verdict = .runOk ∨ l.verdict = .runErr) :
+    (session rest (onLine s l)).lines = (session rest {}).lines ∧
+    (session rest (onLine s l)).indent = (session rest {}).indent := by
+  have h := repl_entry_resets s l heval hv
+  generalize onLine s l = t at h
+  obtain ⟨h1, h2, _⟩ := h
+  have key : ∀ (rest : List Line) (a b : State), a.lines = b.lines → a.indent = b.indent →
+      (session rest a).lines = (session rest b).lines ∧ (session rest a).indent = (session rest b).indent := by
+    intro rest
+    induction rest with
+    | nil => intro a b h1 h2; exact ⟨h1, h2⟩
+    | cons x xs ih =>
+      intro a b h1 _
+      simp only [session, List.foldl_cons]
+      have hc := repl_onLine_congr a b x h1
+      exact ih _ _ hc.1 hc.2
+  exact key rest t {} (by simpa using h1) (by simpa using h2)
+
+open KotoVerif.Repl in
+/-- Non-vacuity and the seeded regression shape: `if x == 1` / `throw "boom"` / blank, then `x + 41`:
+the multi-line entry fails at run time, the REPL is back at the main prompt, the probe is run as its
+own input (2 runs in total). If the runtime-error arm skipped the reset (C07-mut8) the probe line
+would be pushed onto the failed entry's lines. -/
+theorem repl_example :
+    let s := session [⟨false, 0, .indentErr, false⟩, ⟨false, 2, .runOk, false⟩, ⟨true, 2, .runErr, false⟩] {}
+    atMainPrompt s = true ∧ s.indent = 0 ∧ s.runs = 1 ∧
+    (onLine s ⟨false, 0, .runOk, false⟩).runs = 2 ∧
+    atMainPrompt (session [⟨false, 0, .indentErr, false⟩] {}) = false := by decide
 
 end KotoVerif.C07
